@@ -176,6 +176,34 @@ def genComboBraceSpecCases (tier : String) (seed : Nat) : Array Case := Id.run d
     out := out.push { c with note := Json.mkObj [("spec", (spec : Json))] }
   pure out
 
+/-- the content of a component as `parseComponent` passes it (outer parentheses of the
+    combination possibly missing), with the second attempt in parentheses: model `parseContent`,
+    expected tree from the documented meaning -/
+def genComboContentCases (tier : String) (seed : Nat) : Array Case := Id.run do
+  let n := if tier = "thorough" then 1500 else 150
+  let mut out : Array Case := #[]
+  let mut rng : Rng := ⟨UInt64.ofNat (seed * 7919 + 104729)⟩
+  let mut ctr := 0
+  for i in [0:n] do
+    let cfg : GenCfg := { multi := i % 3 = 0, nestedMulti := false }
+    let ((e, c1), r1) := ((genExpr cfg (1 + i % 3)).run ctr) rng
+    rng := r1
+    ctr := c1
+    match e with
+    | .leaf _ => pure ()
+    | _ =>
+      let t := String.ofList (renderBody (i % 2 = 0) e)
+      let spec := showSpecTree (denoteE [] [] e)
+      let exp := match Combo.parseContent 64 t.toList with
+        | .panic => Json.mkObj [("st", ("panic" : Json))]
+        | .nofuel => Json.mkObj [("st", ("nofuel" : Json))]
+        | .res r => Json.mkObj [("st", ("ok" : Json)), ("node", (String.ofList (Combo.showNode r.node) : Json)),
+                                ("out", (String.ofList r.out : Json)), ("code", (String.ofList r.code : Json))]
+      let args := Json.mkObj [("text", (t : Json)), ("brace", (false : Json)), ("nested", (false : Json)), ("retry", (true : Json))]
+      let c : Case := { id := s!"combo-c{i}", op := "combo", args := args, exp := exp, tag := "spec" }
+      out := out.push { c with note := Json.mkObj [("spec", (spec : Json))] }
+  pure out
+
 /-- all strings over a small token alphabet up to a length (exhaustive stream) -/
 def comboAllStrings (toks : List String) : Nat → List String
   | 0 => [""]
@@ -209,7 +237,7 @@ def genComboCases (tier : String) (seed : Nat) : Array Case := Id.run do
     let tag := (if brace then "brace-" else "paren-") ++ (if kind = 0 then "tokens" else if kind = 3 then "mutated"
       else if kind = 4 then "documented" else "rendered")
     out := out.push (comboCase s!"combo-{i}" tag brace nested t)
-  out := out ++ genComboSpecCases tier seed ++ genComboBraceSpecCases tier seed
+  out := out ++ genComboSpecCases tier seed ++ genComboBraceSpecCases tier seed ++ genComboContentCases tier seed
   -- exhaustive: every string of up to 5 (quick) / 6 (thorough) tokens over a 6-token alphabet
   let len := if tier = "thorough" then 6 else 5
   let toks := ["(", ")", "a", " ", "[AND]", "[OR]"]
